@@ -73,6 +73,7 @@ type Sched struct {
 	hangWhere string
 	wg      map[string]int
 	once    map[string]bool
+	onceSt  map[string]int
 	exhaust bool
 	budget  int
 	forced  *Thread
@@ -156,7 +157,12 @@ func (it *Interp) block(desc string, cond func() bool, deadlines func() []Value)
 }
 
 // visible: in DPOR mode every visible operation is preceded by a scheduling point.
-func (it *Interp) visible(kind, obj string) {
+func (it *Interp) visible(kind, obj string) { it.visibleWhen(kind, obj, nil) }
+
+// visibleWhen: the operation is enabled only while cond holds (a Lock while the mutex is free, a receive while the
+// channel has something): the scheduler does not pick the goroutine before, so the operation is ordered after the
+// operation that enabled it and inherits its clock.
+func (it *Interp) visibleWhen(kind, obj string, cond func() bool) {
 	s := it.sch
 	if !s.dpor || s.cur == nil {
 		return
@@ -164,7 +170,13 @@ func (it *Interp) visible(kind, obj string) {
 	t := s.cur
 	t.pending = opDesc{kind, obj, it.curPos}
 	t.parked = true
+	if cond != nil && !cond() {
+		t.cond = cond
+		t.waitDesc = kind
+		t.waitPos = it.curPos
+	}
 	it.yieldNow()
+	t.cond = nil
 	t.parked = false
 }
 
@@ -609,6 +621,9 @@ func (it *Interp) send(c *ChanV, v Value) {
 		c.seq++
 		my := c.seq
 		it.block("send(rendezvous)", func() bool { return c.taken2 >= my || c.closed }, nil)
+		if c.taken2 < my { // the channel was closed under a blocked sender
+			panic(&goPanic{msg: "send on closed channel"})
+		}
 		return
 	}
 	it.block("send", func() bool { return c.closed || len(c.buf) < c.cap }, nil)
@@ -751,10 +766,39 @@ func ptrKey(p Ptr) string { return fmt.Sprintf("%d%v", p.o.id, p.path) }
 
 func (it *Interp) lock(p Ptr) {
 	it.preemptPoint()
-	it.visible("lock", "mu"+ptrKey(p))
 	k := ptrKey(p)
+	it.visibleWhen("lock", "mu"+k, func() bool { return !it.sch.locks[k] })
 	it.block("mutex", func() bool { return !it.sch.locks[k] }, nil)
 	it.sch.locks[k] = true
+}
+
+// acquire joins the clock published on a synchronisation object into the current goroutine's clock (happens-before)
+func (it *Interp) acquire(obj string) {
+	s := it.sch
+	if !s.dpor || s.cur == nil || obj == "" {
+		return
+	}
+	if s.cur.vc == nil {
+		s.cur.vc = map[int]int{}
+	}
+	if vc := s.objVC[obj]; vc != nil {
+		vcJoin(s.cur.vc, vc)
+	}
+}
+
+// release publishes the current goroutine's clock on a synchronisation object
+func (it *Interp) release(obj string) {
+	s := it.sch
+	if !s.dpor || s.cur == nil || obj == "" {
+		return
+	}
+	if s.cur.vc == nil {
+		s.cur.vc = map[int]int{}
+	}
+	if s.objVC[obj] == nil {
+		s.objVC[obj] = map[int]int{}
+	}
+	vcJoin(s.objVC[obj], s.cur.vc)
 }
 
 func (it *Interp) unlock(p Ptr) {
